@@ -45,6 +45,10 @@ type Case struct {
 	// KeyOptions: authorized_keys options in front of the registered key line ("" = none); they restrict what
 	// the key may do in an authorized_keys file and are no input to the signing request
 	KeyOptions string
+	// KeyFile: how the registered key file is named: "" = <login>.pub | bare = <login> | near = only
+	// near-miss names exist (another letter case, the name without a trailing ".pub", with a doubled
+	// ".pub"): such a login name is NOT registered, nothing may be requested for it
+	KeyFile string
 }
 
 func genWeird(t *rapid.T, label string, allowEmpty bool) string {
@@ -91,6 +95,7 @@ func gen(t *rapid.T) Case {
 		CAAlgo:  rapid.SampledFrom([]int{0, 0, 1, 2, 3, 4, 5, 7, 100}).Draw(t, "caAlgo"),
 		UserKey: rapid.SampledFrom([]string{"p256b", "ed25519b", "rsa2048b", "p384a"}).Draw(t, "userKey"),
 		Via:     rapid.SampledFrom([]string{"direct", "direct", "env"}).Draw(t, "via"),
+		KeyFile:    rapid.SampledFrom([]string{"", "", "", "bare", "near"}).Draw(t, "keyFile"),
 		KeyOptions: rapid.SampledFrom([]string{"", "", "", "restrict", "no-pty", "no-agent-forwarding,no-X11-forwarding", "NO-PTY,no-user-rc,no-port-forwarding", `from="10.0.0.0/8",command="/bin/true"`, `restrict,pty`, `environment="A=b c"`, "cert-authority"}).Draw(t, "keyOptions"),
 		// the client-declared OpenSSH version (a claim like the others: around the releases that introduced ECDSA 5.7 and Ed25519 6.5)
 		ClientVersion: rapid.SampledFrom([]string{"", "", "8.1", "5.6", "5.7", "6.4", "6.5", "0.0", "1.0", "4.3", "9.9", "65535.65535", "0.1"}).Draw(t, "clientVersion"),
@@ -165,7 +170,31 @@ func exec(c Case) (vh.Outcome, error) {
 	if c.KeyOptions != "" {
 		line = append([]byte(c.KeyOptions+" "), line...)
 	}
-	if err := os.WriteFile(filepath.Join(dir, c.LogName+".pub"), line, 0o644); err != nil {
+	registered := true
+	fileName := c.LogName + ".pub"
+	switch c.KeyFile {
+	case "bare":
+		fileName = c.LogName
+	case "near":
+		registered = false
+		var names []string
+		for _, n := range []string{strings.ToUpper(c.LogName) + ".pub", strings.ToLower(c.LogName) + ".pub", strings.ToUpper(c.LogName), c.LogName + ".pub.pub", strings.TrimSuffix(c.LogName, ".pub") + ".PUB"} {
+			if n != c.LogName+".pub" && n != c.LogName && len(n) < 200 {
+				names = append(names, n)
+			}
+		}
+		if strings.HasSuffix(c.LogName, ".pub") && len(c.LogName) > 4 {
+			names = append(names, strings.TrimSuffix(c.LogName, ".pub")) // <x>.pub is then <login> itself: registered after all
+			registered = true
+		}
+		for _, n := range names {
+			_ = os.WriteFile(filepath.Join(dir, n), line, 0o644)
+		}
+		fileName = ""
+	}
+	if fileName == "" {
+		// near-miss names only
+	} else if err := os.WriteFile(filepath.Join(dir, fileName), line, 0o644); err != nil {
 		return out, nil // the login name is not usable as a file name on this system: outside the domain
 	}
 	_ = p.Ring().Add(agent.AddedKey{PrivateKey: vh.Key(c.UserKey), Comment: "long-term key"})
@@ -211,6 +240,13 @@ func exec(c Case) (vh.Outcome, error) {
 		conn.Close()
 		if cerr != nil {
 			return out, vh.Errf("Run crashed: %v", cerr)
+		}
+		if !registered {
+			out.Classes = append(out.Classes, "login-not-registered")
+			if runErr == nil || ca.NCalls() != 0 {
+				return out, vh.Errf("no key is registered under the login name %q (only near-miss file names exist) but Run returned %v with %d CA call(s)", c.LogName, runErr, ca.NCalls())
+			}
+			continue
 		}
 		if !haveSlot {
 			out.Classes = append(out.Classes, "no-slot")
@@ -281,7 +317,7 @@ func exec(c Case) (vh.Outcome, error) {
 	return out, nil
 }
 
-const rule = "login name, client-declared user and host, transaction id with JSON metacharacters (quotes, backslash, an injection attempt, U+2028), non-ASCII, spaces; IPv4/IPv6 source; requested CA key algorithm 0..5, 7, 100; further client claims in the message (declared OpenSSH version incl. those older than ECDSA / Ed25519 support, touch-to-SSH, touchless-sudo with firefighter / hosts / time, signature algorithm, extension map with attribute look-alikes) that must not reach the request; the registered key line with or without authorized_keys options (restrict, no-pty, from=, command=, ...); handler configuration written as JSON and loaded by config.NewGensignConfig: validity 1 s..10 y (edges 1, 3599, 3600, 2^31, 315360000) or omitted (default 12 h), key_identifiers keyed by algorithm name in random case, by default/unknown, or by number, with or without the requested algorithm; parameters built directly or through NewReqParam; honest agent, recording CA; each Case issues the request twice. Oracle on the request seen by the CA: principals = [login name]; validity = configured; extensions = the five documented names with empty values; key slot = the one configured for the requested algorithm (reference resolution of names / numbers), none => HandlerConfErr and no CA call; public key parses, is not the registered key, differs between the two requests and equals the public half of the private key the agent received; KeyId decoded by the reference decoder and by keyid.Unmarshal: single principal = login name, transaction id / ip / declared user / host verbatim, version 1, all flags false, usage 0, never-touch. Non-trivial: declared user != login name, a metacharacter or non-ASCII value, or a non-default algorithm."
+const rule = "login name, client-declared user and host, transaction id with JSON metacharacters (quotes, backslash, an injection attempt, U+2028), non-ASCII, spaces; IPv4/IPv6 source; requested CA key algorithm 0..5, 7, 100; further client claims in the message (declared OpenSSH version incl. those older than ECDSA / Ed25519 support, touch-to-SSH, touchless-sudo with firefighter / hosts / time, signature algorithm, extension map with attribute look-alikes) that must not reach the request; the registered key in '<login>.pub' or bare '<login>' - or only under near-miss file names (other letter case, doubled '.pub'), in which case nothing may be requested -, its line with or without authorized_keys options (restrict, no-pty, from=, command=, ...); handler configuration written as JSON and loaded by config.NewGensignConfig: validity 1 s..10 y (edges 1, 3599, 3600, 2^31, 315360000) or omitted (default 12 h), key_identifiers keyed by algorithm name in random case, by default/unknown, or by number, with or without the requested algorithm; parameters built directly or through NewReqParam; honest agent, recording CA; each Case issues the request twice. Oracle on the request seen by the CA: principals = [login name]; validity = configured; extensions = the five documented names with empty values; key slot = the one configured for the requested algorithm (reference resolution of names / numbers), none => HandlerConfErr and no CA call; public key parses, is not the registered key, differs between the two requests and equals the public half of the private key the agent received; KeyId decoded by the reference decoder and by keyid.Unmarshal: single principal = login name, transaction id / ip / declared user / host verbatim, version 1, all flags false, usage 0, never-touch. Non-trivial: declared user != login name, a metacharacter or non-ASCII value, or a non-default algorithm."
 
 func TestC02Request(t *testing.T) {
 	vh.Run(t, vh.Spec[Case]{Property: "C02", Name: "TestC02Request", Rule: rule, Gen: gen, Exec: exec})
